@@ -249,6 +249,8 @@ SRC_MODULES = {
     "Anonymongo.Src.RemoveElementsBeforeIncluding_eq": "Basic",
     "Anonymongo.Src.isFieldNameValue_eq": "Helpers", "Anonymongo.Src.isRedactableFieldPatternInArray_eq": "Helpers",
     "Anonymongo.Src.isInSearchStage_eq": "Helpers", "Anonymongo.Src.augmentOp_eq": "Helpers",
+    "Anonymongo.Src.redactOperation_eq": "Dispatch", "Anonymongo.Src.redactOperation_seq": "Dispatch", "Anonymongo.Src.seqOp_map": "Dispatch",
+    "Anonymongo.Src.seqVal_eq": "Dispatch",
     "Anonymongo.Src.HashName_eq": "Hash", "Anonymongo.Src.trimLeftCutset_dollar": "Hash",
     "Anonymongo.Src.redactQueryValues_eq": "Walk", "Anonymongo.Src.redactArrayValuesWithKey_eq": "Walk", "Anonymongo.Src.redactArrayValues_eq": "Walk",
     "Anonymongo.Src.redactQueryValues_eq_gen": "Walk", "Anonymongo.Src.QA_all": "Walk", "Anonymongo.Src.Q_step": "Walk", "Anonymongo.Src.A_step": "Walk",
@@ -260,12 +262,14 @@ _LEAF = ["Anonymongo.Src.redactScalarValue_eq", "Anonymongo.Src.redactScalarValu
 _PATH = ["Anonymongo.Src.getOp_eq", "Anonymongo.Src.traverseMapPath_eq", "Anonymongo.Src.traverseMapPath_step", "Anonymongo.Src.traverseFuel_enough",
          "Anonymongo.Src.withinSearchUserDocument_eq", "Anonymongo.Src.RemoveElementAfter_eq", "Anonymongo.Src.RemoveElementsBeforeIncluding_eq"]
 _HELP = ["Anonymongo.Src.isFieldNameValue_eq", "Anonymongo.Src.isRedactableFieldPatternInArray_eq", "Anonymongo.Src.isInSearchStage_eq", "Anonymongo.Src.augmentOp_eq"]
+_DISP = ["Anonymongo.Src.redactOperation_eq", "Anonymongo.Src.redactOperation_seq", "Anonymongo.Src.seqOp_map", "Anonymongo.Src.seqVal_eq"]
 SRC_THEOREMS = {
-    "C01": _LEAF + ["Anonymongo.Src.isInSearchStage_eq"] + _WALK,
+    "C01": _LEAF + ["Anonymongo.Src.isInSearchStage_eq"] + _WALK + _DISP,
+    "C04": _DISP,
     "C02": _LEAF + _WALK,
     "C03": ["Anonymongo.Src.redactScalarValue_eq"] + _WALK,
     "C05": _LEAF + _WALK,
-    "C07": _LEAF + _PATH + _HELP + _WALK,
+    "C07": _LEAF + _PATH + _HELP + _WALK + _DISP,
     "C10": ["Anonymongo.Src.redactString_eq", "Anonymongo.Src.redactScalarValue_eq"] + _WALK,
     "C12": ["Anonymongo.Src.getOp_eq", "Anonymongo.Src.traverseMapPath_eq", "Anonymongo.Src.HashName_eq"],
     "C13": ["Anonymongo.Src.HashName_eq", "Anonymongo.Src.trimLeftCutset_dollar"],
@@ -279,6 +283,9 @@ SRC_NOTE = ("; SOURCE-LEVEL (tools/gotr, Generated/Src.lean, Props/Src/*): the l
             "table and flag setting; the theorems above about those model functions are therefore theorems about the current source text; "
             "the QUERY WALKER and the ARRAY WALKER too (Props/Src/Walk: redactQueryValues_eq, redactArrayValuesWithKey_eq - the translated mutual recursion "
             "of redactQueryValues / redactArrayValuesWithKey returns the model's Q / A; HashName_eq: the translated HashName is the model's hashName (SHA-256, Split / Join and %x being the model's); "
+            "redactOperation_eq (Props/Src/Dispatch): the translated redactOperation - one Lean function per top-level statement of the Go function, chained - "
+            "returns, for every operation document without duplicate keys, the model's redactOperation: which keys open a zone (query, filter, sort, update, updates, deletes, "
+            "arrayFilters, q, u, updateMods, document / documents under insert, pipeline), with which walker, every other key untouched; the stage walker is a parameter there; "
             "redactQueryValues / redactArrayValuesWithKey: as said for every document, at every nesting depth, given fuel beyond "
             "key-path length + twice the depth); the stage walker redactPipelineStage remains hand-modelled and corresponded")
 for _p, _ts in SRC_THEOREMS.items():
